@@ -293,8 +293,12 @@ func (fv *FV) applyModel(st *State, call *ast.CallExpr, callee *types.Func, sel 
 		}
 		return []Term{r}, true
 	case "fmt.Sprintf", "fmt.Sprint":
+		var vals []Term
 		for _, a := range call.Args {
-			fv.evalExpr(st, a)
+			vals = append(vals, fv.evalExpr(st, a))
+		}
+		if full == "fmt.Sprint" && len(vals) == 1 && vals[0].Sort == SInt {
+			return []Term{T(sx("int2str", vals[0].S), SStr)}, true // decimal rendering of one integer
 		}
 		return []Term{fv.fresh("str", SStr)}, true
 	case "strconv.Itoa", "strconv.FormatUint", "strconv.FormatInt":
